@@ -473,12 +473,15 @@ func (w *world) judge(dev []int, label string) []lorawan.LinkADRReqPayload {
 // device-list buffer, a plan it was handed).
 func ownerWriteCopy(dst, src []int) { copy(dst, src) }
 
+// ownerWritePlan: appending to a plan one was handed (the spare capacity behind
+// it only; whether the payloads themselves are the caller's to edit is not in
+// the statement).
 func ownerWritePlan(pls []lorawan.LinkADRReqPayload) {
-	pls = pls[:cap(pls)]
-	for i := range pls {
-		pls[i].ChMask = lorawan.ChMask{true, false, true}
-		pls[i].Redundancy.ChMaskCntl = 5
-		pls[i].DataRate = 9
+	spare := pls[len(pls):cap(pls)]
+	for i := range spare {
+		spare[i].ChMask = lorawan.ChMask{true, false, true}
+		spare[i].Redundancy.ChMaskCntl = 5
+		spare[i].DataRate = 9
 	}
 }
 
